@@ -624,10 +624,46 @@ def extract_escape(emit):
     emit(f"def entry_points_type_error : List (List Char) := {lean_list(ok_type)}")
 
 
-SECTIONS = [("versions", extract_versions), ("formatters", extract_formatters), ("assets", extract_assets), ("probes", extract_probes), ("escape", extract_escape)]
+def extract_shared_state(emit):
+    """inventory of process-wide mutable state in fmtutil (C17): module-level containers, class-level containers and
+    functools caches.  A result can only depend on the call history through one of these."""
+    import importlib
+    mods = ["fmtutil", "fmtutil.formatter", "fmtutil.utils", "fmtutil.__version", "fmtutil.__assets", "fmtutil.exceptions", "fmtutil.__type", "fmtutil.__about__"]
+    out = []
+    skip = {"__annotations__", "__dataclass_fields__", "__match_args__", "__slots__", "__all__", "__path__", "__builtins__"}
+    for mn in mods:
+        try:
+            m = importlib.import_module(mn)
+        except ModuleNotFoundError:
+            continue
+        for name, val in sorted(vars(m).items()):
+            if name in skip or (name.startswith("__") and name.endswith("__")):
+                continue
+            if isinstance(val, (dict, list, set, bytearray)):
+                out.append(f"module:{mn}.{name}:{type(val).__name__}:{len(val)}")
+            elif hasattr(val, "cache_info"):
+                out.append(f"cache:{mn}.{name}")
+            elif isinstance(val, type) and getattr(val, "__module__", None) == mn:
+                for a, v in sorted(vars(val).items()):
+                    if a in skip:
+                        continue
+                    f = getattr(v, "__func__", v)
+                    if isinstance(v, (dict, list, set, bytearray)):
+                        out.append(f"class:{mn}.{name}.{a}:{type(v).__name__}:{len(v)}")
+                    elif hasattr(f, "cache_info"):
+                        out.append(f"cache:{mn}.{name}.{a}")
+    emit(f"def shared_state : List (List Char) := {lean_list(sorted(set(out)))}")
+    # the memoised function is keyed by the class alone
+    import inspect
+    import fmtutil.formatter as F
+    sig = list(inspect.signature(F.Formatter.__dict__["_regex"].__func__.__wrapped__).parameters) if "_regex" in F.Formatter.__dict__ else None
+    emit(f"def regex_cache_params : List (List Char) := {lean_list(sig or [])}")
 
 
-FILES = {"versions": "Ver", "formatters": "Fmt", "assets": "Assets", "probes": "Assets", "escape": "Esc"}
+SECTIONS = [("versions", extract_versions), ("formatters", extract_formatters), ("assets", extract_assets), ("probes", extract_probes), ("escape", extract_escape), ("state", extract_shared_state)]
+
+
+FILES = {"versions": "Ver", "formatters": "Fmt", "assets": "Assets", "probes": "Assets", "escape": "Esc", "state": "State"}
 
 
 def generate() -> dict[str, str]:
